@@ -16,7 +16,7 @@ from ..cfg import CFG
 from ..dataflow import definitely_assigned, loaded_names, stored_names
 from ..model import walk_shallow, call_name, is_self_attr, dotted_name, parent, ancestors, enclosing_function, AnalysisError
 from ..util import (has_call, find_calls, assigned_value, const_str, unparse, kw, arg_or_kw, enclosing_stmt,
-                    guards_of, call_tail, control_ancestors)
+                    guards_of, call_tail, control_ancestors, name_bound, bound_names)
 from .. import mutate as M
 
 EXPLANATION = ("Configuration-specialised analysis of SequentialCB._results: for every configuration accepted by _validate "
@@ -39,6 +39,8 @@ def run(ctx):
     sp.run()
     r4_static(ctx, fn)
     r6_wiring(ctx)
+    from . import c15
+    c15.r6_safe_actions_cache(ctx, rule="C06.R7")
 
 
 # ================================================================================================
@@ -107,11 +109,21 @@ class Specialiser:
         self.tests = [x for x in walk_shallow(fn) if isinstance(x, (ast.If, ast.IfExp))]
         self.seen = {}
         self.n_configs = 0
+        # role-based names (robust to renaming of locals)
+        self.N_BATCHED = name_bound(fn, lambda v: "is_batch(first.get('context'))" in unparse(v), "batched")
+        self.N_DISCRETE = name_bound(fn, lambda v: unparse(v) == "self._discrete(first)", "discrete")
+        self.N_SCORE = name_bound(fn, lambda v: unparse(v) == "learner.has_score", "has_score")
+        self.N_SHOULD = "should_pred"
+        for x in walk_shallow(self.loop):
+            if isinstance(x, ast.If) and isinstance(x.test, ast.Name) and any(has_call(s, "learner.predict") for s in x.body):
+                self.N_SHOULD = x.test.id
+        ys = [y for y in walk_shallow(self.loop) if isinstance(y, ast.Yield) and isinstance(y.value, ast.Name)]
+        self.N_OUT = ys[0].value.id if ys else "out"
 
     # -------------------------------------------------------------------------------------------
     def flags(self, cfg):
         learn, eval_, record, has_score, batched, discrete, K = cfg
-        over = {"batched": batched, "discrete": discrete, "has_score": has_score}
+        over = {self.N_BATCHED: batched, self.N_DISCRETE: discrete, self.N_SCORE: has_score}
         env = {"self._learn": learn, "self._eval": eval_, "self._record": tuple(record), "first": frozenset(K)}
         fe = FlagEval(env, opaque=lambda e: TOP)
         for st in self.prelude:
@@ -479,7 +491,7 @@ class Specialiser:
         want_out = {}
         if eval_:
             vr = f"{I}['rewards']" if eval_ == "on" else (f"{I}['eval_rewards']" if (eval_ == "ips" and learn != "ips") else f"{I}['learn_rewards']")
-            should_pred = truth(fe.env.get("should_pred", TOP))
+            should_pred = truth(fe.env.get(self.N_SHOULD, TOP))
             if eval_ == "ips" and has_score and should_pred is False:
                 want_out["reward"] = None  # score-based arm, checked structurally below
             else:
@@ -487,7 +499,7 @@ class Specialiser:
             want_out["action"] = f"{P}[0]"
             want_out["probability"] = f"{P}[1]"
         for x in walk_shallow(self.loop):
-            if isinstance(x, ast.Assign) and isinstance(x.targets[0], ast.Subscript) and unparse(x.targets[0].value) == "out":
+            if isinstance(x, ast.Assign) and isinstance(x.targets[0], ast.Subscript) and unparse(x.targets[0].value) == self.N_OUT:
                 if not any(nid in reach for nid in g.nodes_of(x)):
                     continue
                 k = const_str(x.targets[0].slice)
@@ -514,15 +526,17 @@ def r4_static(ctx, fn):
                      and loop in list(ancestors(a))]
             ctx.ob("C06.R4", SEQ, "SequentialCB._results", c, "learner call is not inside an inner loop / comprehension", not inner)
     ys = [y for y in walk_shallow(loop) if isinstance(y, (ast.Yield, ast.YieldFrom))]
-    ok = len(ys) == 1 and isinstance(ys[0], ast.Yield) and unparse(ys[0].value) == "out" and enclosing_stmt(ys[0]) in loop.body[-1:] + [s for s in walk_shallow(loop.body[-1])]
+    OUT = unparse(ys[0].value) if ys and isinstance(ys[0], ast.Yield) and isinstance(ys[0].value, ast.Name) else "out"
+    outdef = [v for v in assigned_value(loop, OUT)]
+    ok = len(ys) == 1 and isinstance(ys[0], ast.Yield) and len(outdef) == 1 and isinstance(outdef[0], ast.Dict) and not outdef[0].keys and enclosing_stmt(ys[0]) in loop.body[-1:] + [s for s in walk_shallow(loop.body[-1])]
     ctx.ob("C06.R4", SEQ, "SequentialCB._results", ys[0] if ys else loop, "exactly one row (`out`) is yielded at the end of each iteration", ok, stmt="one yield per interaction")
     if ys:
         g = [unparse(t) for t, p in guards_of(enclosing_stmt(ys[0]), loop)]
-        ctx.ob("C06.R4", SEQ, "SequentialCB._results", ys[0], "the row is suppressed only when it is empty", g in (["out"], []), stmt="yield guard", detail={"guards": g})
+        ctx.ob("C06.R4", SEQ, "SequentialCB._results", ys[0], "the row is suppressed only when it is empty", g in ([OUT], []), stmt="yield guard", detail={"guards": g})
     esc = [x for x in walk_shallow(loop) if isinstance(x, (ast.Break, ast.Continue, ast.Return))]
     ctx.ob("C06.R4", SEQ, "SequentialCB._results", loop, "no interaction is skipped (no break/continue/return in the loop)", not esc, stmt="no skip")
     # extra interaction fields carried unchanged
-    ups = [c for c in walk_shallow(loop) if isinstance(c, ast.Call) and unparse(c.func) == "out.update" and c.args and isinstance(c.args[0], ast.DictComp)]
+    ups = [c for c in walk_shallow(loop) if isinstance(c, ast.Call) and unparse(c.func) == f"{OUT}.update" and c.args and isinstance(c.args[0], ast.DictComp)]
     ok = False
     for u in ups:
         dc = u.args[0]
@@ -536,9 +550,10 @@ def r4_static(ctx, fn):
     ctx.ob("C06.R3", SEQ, "SequentialCB", excl, "_IMPLICIT_EXCLUDE is exactly the consumed keys (nothing a user adds is swallowed)",
            have == {"context", "actions", "rewards", "action", "reward", "probability", "eval_rewards", "learn_rewards"}, stmt="_IMPLICIT_EXCLUDE")
     # OPE targets agree with the keys read in the loop
-    lt = assigned_value(fn, "learn_target")
-    ok = len(lt) == 1 and const_str(lt[0]) == "learn_rewards"
-    opes = [c for c in walk_shallow(fn) if isinstance(c, ast.Call) and call_name(c) == "OpeRewards"]
+    LT = name_bound(fn, lambda v: const_str(v) == "learn_rewards", "learn_target")
+    lt = assigned_value(fn, LT)
+    ok = len(lt) == 1 and const_str(lt[0]) == "learn_rewards" and any(isinstance(x, ast.Subscript) and unparse(x.slice) == LT for x in walk_shallow(loop))
+    opes = sorted((c for c in walk_shallow(fn) if isinstance(c, ast.Call) and call_name(c) == "OpeRewards"), key=lambda c: c.lineno)
     tg = [const_str(kw(c, "target")) for c in opes]
     ctx.ob("C06.R3", SEQ, "SequentialCB._results", fn, "OPE reward targets written by OpeRewards are the keys the loop reads", ok and tg == ["learn_rewards", "eval_rewards"],
            stmt="ope targets", detail={"targets": tg})
@@ -556,23 +571,30 @@ def r6_wiring(ctx):
         ctx.ob("C06.R6", SEQ, "SequentialCB.evaluate", g.nodes[r].ast, "_validate dominates _results", any(v in dom[r] for v in val))
         c = find_calls(g.nodes[r].ast, "self._results")[0]
         a2 = c.args[2] if len(c.args) > 2 else None
-        ok = a2 is not None and unparse(a2) == "BatchSafe(Finalize()).filter(interactions)"
+        peek = [x for x in walk_shallow(fn) if isinstance(x, ast.Assign) and isinstance(x.targets[0], ast.Tuple) and len(x.targets[0].elts) == 2 and has_call(x.value, "peek_first")]
+        FIRST, REST = (unparse(peek[0].targets[0].elts[0]), unparse(peek[0].targets[0].elts[1])) if peek else ("first", "interactions")
+        ok = a2 is not None and unparse(a2) == f"BatchSafe(Finalize()).filter({REST})" and bool(peek) and unparse(peek[0].value) == "peek_first(environment.read())"
         ctx.ob("C06.R6", SEQ, "SequentialCB.evaluate", c, "interactions are finalised (BatchSafe(Finalize())) before evaluation", ok, stmt="finalize before _results")
         ctx.ob("C06.R6", SEQ, "SequentialCB.evaluate", c, "_results gets the SafeLearner and the peeked first interaction",
-               len(c.args) >= 2 and unparse(c.args[0]) == "learner" and unparse(c.args[1]) == "first", stmt="_results args")
+               len(c.args) >= 2 and unparse(c.args[0]) == "learner" and unparse(c.args[1]) == FIRST, stmt="_results args")
     for v in val:
         c = find_calls(g.nodes[v].ast, "self._validate")[0]
+        peek = [x for x in walk_shallow(fn) if isinstance(x, ast.Assign) and isinstance(x.targets[0], ast.Tuple) and len(x.targets[0].elts) == 2 and has_call(x.value, "peek_first")]
+        FIRST = unparse(peek[0].targets[0].elts[0]) if peek else "first"
         ctx.ob("C06.R6", SEQ, "SequentialCB.evaluate", c, "_validate checks the first interaction with the learner's has_score",
-               [unparse(a) for a in c.args] == ["first", "learner.has_score"])
+               [unparse(a) for a in c.args] == [FIRST, "learner.has_score"])
     ys = [y for y in walk_shallow(fn) if isinstance(y, (ast.Yield, ast.YieldFrom))]
-    ok = len(ys) == 1 and isinstance(ys[0], ast.YieldFrom) and unparse(ys[0].value) == "Unbatch().filter(results)"
+    RES_ = name_bound(fn, lambda v: has_call(v, "self._results"), "results")
+    ok = len(ys) == 1 and isinstance(ys[0], ast.YieldFrom) and unparse(ys[0].value) == f"Unbatch().filter({RES_})"
     ctx.ob("C06.R6", SEQ, "SequentialCB.evaluate", ys[0] if ys else fn, "rows are un-batched (one row per interaction) on the way out", ok, stmt="unbatch results")
     # _validate raises when something required is missing
     vf = ctx.fn(SEQ, "SequentialCB._validate")
-    mk = assigned_value(vf, "missing_keys")
-    ok = len(mk) == 1 and unparse(mk[0]) == "required_keys - first.keys()" and any(
-        isinstance(x, ast.If) and unparse(x.test) == "missing_keys" and any(isinstance(y, ast.Raise) for y in x.body) for x in walk_shallow(vf))
-    rk = assigned_value(vf, "required_keys")
+    RK = name_bound(vf, lambda v: unparse(v) == "self._required(has_score)", "required_keys")
+    MK = name_bound(vf, lambda v: unparse(v) == f"{RK} - first.keys()", "missing_keys")
+    mk = assigned_value(vf, MK)
+    ok = len(mk) == 1 and unparse(mk[0]) == f"{RK} - first.keys()" and any(
+        isinstance(x, ast.If) and unparse(x.test) == MK and any(isinstance(y, ast.Raise) for y in x.body) for x in walk_shallow(vf))
+    rk = assigned_value(vf, RK)
     ok = ok and len(rk) == 1 and unparse(rk[0]) == "self._required(has_score)"
     ctx.ob("C06.R6", SEQ, "SequentialCB._validate", vf, "an environment lacking a required key is rejected with an exception", ok, stmt="_validate raises")
     init = ctx.fn(SEQ, "SequentialCB.__init__")
